@@ -89,6 +89,62 @@ def mutate(rng, q):
     return ''.join(q)
 
 
+def plant(rng, e, bad):
+    """e with one sub-expression (chosen at random, at any depth) replaced by bad"""
+    t = e[0]
+    kids = {'not': [1], 'ar': [2, 3], 'cmp': [2, 3], 'lg': [2, 3], 'if': [1, 2, 3]}.get(t, [])
+    if t == 'call' and e[2] and rng.random() < 0.8:
+        args = list(e[2])
+        i = rng.randrange(len(args))
+        args[i] = plant(rng, args[i], bad)
+        return ('call', e[1], args)
+    if not kids or rng.random() < 0.25:
+        return bad
+    i = rng.choice(kids)
+    e = list(e)
+    e[i] = plant(rng, e[i], bad)
+    return tuple(e)
+
+
+def unknown_function_queries(rng, n):
+    """valid queries in which one sub-expression, anywhere, is a call of a function that does not exist
+    (sometimes in the dead branch of an if with a literal condition): all must be rejected"""
+    out = []
+    for _ in range(n):
+        bad = ('call', rng.choice(['nosuchfn', 'lenght', 'parsehex', 'Abs', 'to_upper', 'f']), [gen.col_ref(rng)] if rng.random() < 0.8 else [])
+        k = rng.random()
+        if k < 0.35:
+            c = lit(rng.random() < 0.5)
+            good = gen.any_expr(rng, 1)
+            e = ('if', c, good, bad) if c[1] else ('if', c, bad, good)
+            if rng.random() < 0.5:
+                e = plant(rng, gen.any_expr(rng, 2), e)
+        else:
+            e = plant(rng, gen.any_expr(rng, rng.randint(1, 3)), bad)
+        w = rng.random()
+        if w < 0.3:
+            st = [('let', e, 'x')]
+        elif w < 0.45:
+            st = [('where', ('cmp', 'gt', e, lit(1)))]
+        elif w < 0.6:
+            st = [('agg', [(None, (rng.choice(['sum', 'min', 'max', 'avg', 'distinct']), e))], [])]
+        elif w < 0.7:
+            st = [('agg', [('n', ('count', ('cmp', 'gt', e, lit(1))))], [(None, col('k'))])]
+        elif w < 0.8:
+            st = [('agg', [(None, ('count', None))], [(None, e)])]
+        elif w < 0.9:
+            st = [('sort', [col('a'), e], None)]
+        else:
+            st = [('total', e, 'run')]
+        pre = [('json', None)] + ([gen.inline_stage(rng)] if rng.random() < 0.3 else [])
+        post = [('limit', 3)] if rng.random() < 0.2 else []
+        try:
+            out.append(qast.query_text(STAR, pre + st + post))
+        except (ValueError, TypeError):
+            pass
+    return out
+
+
 def impl_accepts(queries):
     outs = aglib.run_impl_many([(q, b'', 'json', ()) for q in queries])
     res = []
@@ -130,7 +186,9 @@ def explore(ctx):
             base.append(qast.query_text(STAR, stages))
         except ValueError:
             pass
-    queries = list(base) + list(STATIC_ERRORS)
+    planted = unknown_function_queries(rng, 200 if quick else 4000)
+    static_errors = set(STATIC_ERRORS) | set(planted)
+    queries = list(base) + list(STATIC_ERRORS) + planted
     for i in range(n):
         queries.append(mutate(rng, rng.choice(base)))
     # deep nesting
@@ -158,8 +216,8 @@ def explore(ctx):
             if im[2] != b'':
                 failures.append({'kind': 'spec', 'what': 'rejected query wrote to stdout: %r' % im[2][:80], 'payload': {'query': q}})
                 continue
-        if im[0] == 'accept' and q in STATIC_ERRORS:
-            failures.append({'kind': 'spec', 'what': 'a documented static error was accepted', 'payload': {'query': q}})
+        if im[0] == 'accept' and q in static_errors:
+            failures.append({'kind': 'spec', 'what': 'a documented static error was accepted' + (' (a call of an unknown function inside an expression)' if q not in STATIC_ERRORS else ''), 'payload': {'query': q}})
             continue
         if im[0] == 'reject' and q in STATIC_OK:
             failures.append({'kind': 'spec', 'what': 'a valid query was rejected: %s' % im[1][-200:], 'payload': {'query': q}})
@@ -206,11 +264,11 @@ def explore(ctx):
     cov = {
         'evaluations': len(queries) + len(acc), 'distinct_nontrivial': nontrivial,
         'rule': 'valid queries (README, tests/structured_tests, an explicit list, AST generator) and their one/two-token mutations (delete, duplicate, insert operator/bracket/quote/keyword, append text), '
-                'Unicode injection (non-ASCII letters, smart quotes, combining marks, 4-byte characters) at any position, nesting up to 40, the documented static errors; '
+                'Unicode injection (non-ASCII letters, smart quotes, combining marks, 4-byte characters) at any position, nesting up to 40, the documented static errors, valid queries with an unknown function planted at a random position of a random expression (also in the dead branch of an if with a literal condition); '
                 'observed on the real binary: no crash/hang, reject => non-empty stderr and empty stdout; accept/reject compared with the grammar model; accepted queries run and compared with the model\'s reading; '
                 'non-trivial = a non-ASCII query or one with >= 3 stages',
         'samples': [{'query': q} for q in queries[len(base) + len(STATIC_ERRORS):len(base) + len(STATIC_ERRORS) + 4]],
         'implementation_outcomes': kinds, 'accept_reject_agreements': agree, 'unmodelled': unmodelled, 'behaviour_compared': behaved,
-        'static_errors_checked': len(STATIC_ERRORS), 'valid_queries_checked': len(STATIC_OK),
+        'static_errors_checked': len(STATIC_ERRORS), 'planted_unknown_function_queries': len(planted), 'valid_queries_checked': len(STATIC_OK),
     }
     return {'coverage': cov, 'failures': failures}
